@@ -181,6 +181,44 @@ def unitStep (subs : List (S → S × Except Exc Unit)) (own : S → S × Except
   | (s', .ok _) => own s'
   | (s', .error e) => (s', .error e)
 
+/-! ### `init_solve`: what a re-used out profile takes over from the incoming profile (unit.py)
+
+      self.in_profile = self.InProfile(self, in_profile)
+      if not self.out_profile:
+          self.out_profile = self.OutProfile(self, in_profile)      # copies the public entries of `in_profile`
+      else:
+          roots = {h.name for h in root_hooks if isinstance(self.out_profile, h.owner)}
+          handed_over = {k: v for k, v in in_profile.__dict__.items() if not k.startswith("_")}
+          outdated = [k for k in self.out_profile.__dict__ if not k.startswith("_") and k not in roots and k not in handed_over]
+          for k in outdated: delattr(self.out_profile, k)
+          for k, v in handed_over.items():
+              if k not in roots or k not in self.out_profile.__dict__: setattr(self.out_profile, k, v)
+
+  Public `__dict__` entries as an insertion-ordered association list name ↦ value (values are opaque: identities).
+-/
+
+abbrev Entries := List (String × Nat)
+
+def Entries.get (e : Entries) (k : String) : Option Nat := (e.find? fun x => x.1 == k).map (·.2)
+
+def Entries.has (e : Entries) (k : String) : Bool := e.any fun x => x.1 == k
+
+/-- the `else:` branch on the public entries of the re-used out profile: entries that are neither root hooks nor handed
+    over are dropped; the others keep their place, root hooks also their value (the previous result = start value of the
+    iteration), the rest takes the incoming value; names the out profile does not have yet are appended in the order of
+    the incoming profile (python `dict` semantics) -/
+def handOver (roots : List String) (out tmpl : Entries) : Entries :=
+  let kept : Entries := out.filter fun e => roots.contains e.1 || tmpl.has e.1
+  kept.map (fun e => if roots.contains e.1 then e else (e.1, (tmpl.get e.1).getD e.2)) ++
+    tmpl.filter fun e => !kept.has e.1
+
+/-- public entries of `self.out_profile` after `init_solve(in_profile)`: `out = none` – there was no out profile (it is
+    created from the incoming one); `handsOver = false` is the policy "re-use as it is" -/
+def initOut (handsOver : Bool) (roots : List String) (out : Option Entries) (tmpl : Entries) : Entries :=
+  match out with
+  | none => tmpl
+  | some o => if handsOver then handOver roots o tmpl else o
+
 /-! ### re-entrancy marks of `HookFunction.__call__` (hooks.py)
 
       key = id(instance); cycle = key in self._active_instances
